@@ -48,9 +48,19 @@ def prepare(R):
         R.oblige("leanchecker re-checks " + ",".join(mods), "recheck", rc == 0, (so + se)[-400:])
         if rc != 0:
             ctx.broken.append(("leanchecker", (so + se)[-400:]))
-    if not ok and not ctx.broken:
-        ctx.broken.append(("lake build", "failed modules: " + ", ".join(failed) + " :: " + log[-600:]))
-        R.oblige("lake build", "build", False, log[-600:])
+    if not ok:
+        # a module that fails to build breaks THIS property only if the property's theorems or the drivers it runs depend on it (another property's
+        # regenerated fact file - F3 sites, F6 reply sites, F2 skeletons, the Ready arm - failing is that property's alarm, not everybody's)
+        roots = list(mods) + ["Driver.lean"] + (["RaftDriver.lean"] if R.prop == "C15" else [])
+        closure = core.import_closure(roots)
+        names = {f[:-5].replace("/", ".") if f.endswith(".lean") else f for f in failed}
+        relevant = sorted(n for n in names if n in closure or n in ("driver", "Driver"))
+        R.extra["lake_build_failed_modules"] = sorted(names)
+        if (relevant or not names) and not ctx.broken:
+            ctx.broken.append(("lake build", "failed modules: " + ", ".join(relevant or failed) + " :: " + log[-600:]))
+            R.oblige("lake build", "build", False, log[-600:])
+        elif not relevant:
+            R.extra["lake_build_note"] = "modules outside this property's dependencies failed to build (reported by the properties that own them): " + ", ".join(sorted(names))
     R.extra["partial_theorems"] = reg.get("partial", [])
     R.extra["hypotheses"] = reg.get("hypotheses", [])
     R.extra["full_statement"] = reg.get("statement", "")
